@@ -49,6 +49,10 @@ def run_c09(ctx):
             f.write(json.dumps({k: x[k] for k in ('op', 'via', 'ranker', 'input', 'output', 'calls')}) + '\n')
     out = _tlc_const(ctx, 'SortLaws', {'MODE': '"check"', 'MaxLen': 0, 'Vals': '{0}'}, env={'TRACE': lawf}, name='SL_check')
     bad = _set_after(out, 'BAD')
+    over = _set_after(out, 'OVERBOUND')
+    if over:
+        ctx.drift.append('%d sort records needed more ranker calls than the merge sort of MergeSort.tla can (n*ceil(log2 n)+n): '
+                         'the algorithm changed' % len(over))
     for i in bad:
         x = recs[i - 1]
         what = '%s via %s with ranker %r on %s gave %s (%d ranker calls)' % (
